@@ -4,6 +4,7 @@ use vh::runner;
 
 mod c10;
 mod c11;
+mod c17;
 
 fn main() {
     let args: Vec<String> = std::env::args().skip(1).collect();
@@ -16,6 +17,7 @@ fn main() {
     match ctx.prop.as_str() {
         "C10" => c10::run(&ctx),
         "C11" => c11::run(&ctx),
+        "C17" => c17::run(&ctx),
         p => {
             eprintln!("unknown property {p}");
             std::process::exit(2);
